@@ -31,11 +31,11 @@ type WpCase struct {
 }
 
 type fakeConn struct {
-	id     int
-	pooledB int    // backend it was last pooled under
-	owner  *WpCase // pools of earlier cases keep their tickers running in the bubble: only this case's connections count
-	mu     sync.Mutex
-	closed int
+	id      int
+	pooledB int     // backend it was last pooled under
+	owner   *WpCase // pools of earlier cases keep their tickers running in the bubble: only this case's connections count
+	mu      sync.Mutex
+	closed  int
 }
 
 // closeHook: armed during a "hook" op, it makes the first Close issued by the pool's clean-up start a concurrent
@@ -49,8 +49,8 @@ var closeHook struct {
 	done  *int32
 }
 
-func (f *fakeConn) Read(b []byte) (int, error)         { return 0, fmt.Errorf("fake") }
-func (f *fakeConn) Write(b []byte) (int, error)        { return len(b), nil }
+func (f *fakeConn) Read(b []byte) (int, error)  { return 0, fmt.Errorf("fake") }
+func (f *fakeConn) Write(b []byte) (int, error) { return len(b), nil }
 func (f *fakeConn) Close() error {
 	f.mu.Lock()
 	f.closed++
